@@ -36,7 +36,7 @@ class ExpandError(Exception):
         self.kind = kind
 
 
-def expand(files, root):
+def expand(files, root, extra_roots=()):
     """files: path -> {"items": [("mark", byte) | ("include", relpath)], "once": bool}.
     Returns (list of marker bytes in expansion order, ambiguous flag) or raises ExpandError.
     ambiguous = a cycle passes through a #once file (error and silent skip are both acceptable)."""
@@ -70,4 +70,8 @@ def expand(files, root):
                 stack.pop()
 
     visit(root)
+    for r in extra_roots:
+        # further input files are assembled one after the other into the same program; `#once` is remembered across them
+        del stack[:]
+        visit(r)
     return out, state["ambiguous"]
